@@ -29,6 +29,7 @@ static std::string b64_dec_sig(const char *api, const uint8_t *s, size_t len, lo
 }
 
 static void b64_roundtrip_one(const uint8_t *x, size_t n) {
+  if (g_asserts_live && n == 0) return;      // base64.cpp asserts raw_data_len > 0 and base64_size > 0 in debug builds
   C.states++;
   const std::string ref = ref_b64enc(x, n); const size_t E = ref.size();
   const ShowIn si(x, n);
@@ -37,6 +38,7 @@ static void b64_roundtrip_one(const uint8_t *x, size_t n) {
   // --- Encode into caller buffer, capacity exact / exact-1 / 0
   long caps[3] = {(long)E, (long)E - 1, 0};
   for (int ci = 0; ci < 3; ci++) { long cap = caps[ci]; if (cap < 0 || (ci == 2 && E <= 1)) continue; if (ci == 1 && cap == 0 && E != 1) continue;
+    if (g_asserts_live && cap == 0) continue;
     C.transitions++;
     Ex in(x, n), out((size_t)cap);
     Guard g("base64.Encode(buf)", x, n, cap);
